@@ -26,7 +26,7 @@ class Obl:
     def __init__(self, name, harness, desc, real=(), defs=(), unwind=None, unwindset=(), flags=(),
                  tiers=("quick", "thorough"), timeout=None, mem_gb=None, entry="main", encodes=(),
                  bounds="", symbolic="", hooks=False, kind="cbmc", pyfunc=None, no_std=(),
-                 backend=None, object_bits=None, twin_defs=None, cut_loops=(), allow_nobody=(), remove_bodies=()):
+                 backend=None, object_bits=None, twin_defs=None, cut_loops=(), allow_nobody=(), remove_bodies=(), restrict_fp=()):
         self.name = name
         self.harness = harness          # path relative to /verif/harness
         self.desc = desc
@@ -51,6 +51,7 @@ class Obl:
         self.cut_loops = list(cut_loops)  # spin loops cut by an unwinding ASSUMPTION (goto-instrument), listed in the evidence
         self.allow_nobody = list(allow_nobody)
         self.remove_bodies = list(remove_bodies)  # functions whose bodies are dropped (must then be unreachable: cbmc's no-body property)
+        self.restrict_fp = list(restrict_fp)  # ("function.function_pointer_call.N", [targets]): goto-instrument --restrict-function-pointer; cbmc then ASSERTS that the pointer is one of the targets
         self.twin_defs = twin_defs      # extra -D for a reachability twin (second build + run); its WITNESS must be reached
 
 
@@ -135,6 +136,14 @@ def build(prop, o, workdir):
     if o.remove_bodies:
         gb1 = os.path.join(workdir, o.name + ".rm.gb")
         cmd = ["goto-instrument"] + [x for f in o.remove_bodies for x in ("--remove-function-body", f)] + [gb, gb1]
+        rc, out, _ = sh(cmd, timeout=300)
+        log += " ".join(cmd) + "\n" + out[-2000:]
+        if rc != 0:
+            return None, log
+        gb = gb1
+    if o.restrict_fp:
+        gb1 = os.path.join(workdir, o.name + ".fp.gb")
+        cmd = ["goto-instrument"] + [x for (site, tg) in o.restrict_fp for x in ("--restrict-function-pointer", "%s/%s" % (site, ",".join(tg)))] + [gb, gb1]
         rc, out, _ = sh(cmd, timeout=300)
         log += " ".join(cmd) + "\n" + out[-2000:]
         if rc != 0:
